@@ -255,6 +255,12 @@ theorem snocView_append_singleton {α : Type} (s : List α) (x : α) :
 /-- `[x; n]` -/
 @[inline] def repeatN {α : Type} (x : α) (n : Nat) : List α := List.replicate n x
 
+/-- `*p.add(k)` for a pointer `p` to the start of the slice `s`: undefined behaviour outside the allocation -/
+@[inline] def ptrRead {ε α : Type} (s : List α) (k : Nat) : Ctl ε α :=
+  match s[k]? with
+  | some x => .val x
+  | none => .ub
+
 /-- `char::len_utf8` -/
 @[inline] def charLenUtf8 (c : Nat) : Nat :=
   if c < 0x80 then 1 else if c < 0x800 then 2 else if c < 0x10000 then 3 else 4
